@@ -35,7 +35,9 @@ contract(E + 'Variable.set_id_manager', 'C12', types=IDT,
          modifies=['self.id_manager', 'self.elementaryIndex', 'self.variableId'],
          ensures={'stored': 'same(self.id_manager, id_manager)',
                   'cleared': 'implies(id_manager is None, self.elementaryIndex is None and self.variableId is None)',
-                  'index_by_name': 'implies(id_manager is not None, same(self.variableId, id_manager.variables.indices[self.name]))'},
+                  'index_by_name': 'implies(id_manager is not None, same(self.variableId, id_manager.variables.indices[self.name]))',
+                  'elementary_index_by_name': 'implies(id_manager is not None, '
+                                              'same(self.elementaryIndex, id_manager.elementary_expressions.indices[self.name]))'},
          replay='''
 import warnings; warnings.simplefilter('ignore')
 import pandas as pd
@@ -84,9 +86,11 @@ detail = f'hosts where an absent column below an operand is not refused with Bio
 '''
 
 # propagation: abstract contract of the virtual method (induction hypothesis) and the base body per family
+_ONLY = "c12_field_only_set_to('id_manager', id_manager)"      # (m5) no node receives another manager than the one handed down
 _MOD = ['*.id_manager', '*.elementaryIndex', '*.variableId', '*.drawId', '*.rvId', '*.betaId']
 contract(BASE + 'set_id_manager', 'C12', verify=False, types=IDT, modifies=_MOD,
-         raises={'BiogemeError': 'sim_raises(self, id_manager)'}, ensures={'t': 'True'},
+         raises={'BiogemeError': 'sim_raises(self, id_manager)'},
+         ensures={'stored': 'same(self.id_manager, id_manager)', 'only_this_manager': _ONLY},
          label='Expression.set_id_manager(abstract)',
          note='induction hypothesis: whether handing an id manager down a sub-formula is refused; only identifier fields change')
 for fam in FAMILIES:
@@ -94,9 +98,18 @@ for fam in FAMILIES:
              types=IDT, modifies=_MOD,
              requires={'wf_node': 'len(self.children) >= 0'},
              raises={'BiogemeError': 'exists(lambda k: sim_raises(self.children[k], id_manager), 0, len(self.children))'},
-             ensures={'t': 'True'}, replay=REPLAY_SIM,
+             ensures={'stored': 'same(self.id_manager, id_manager)', 'only_this_manager': _ONLY}, replay=REPLAY_SIM,
              invariants={1: {'clauses': {'none_refused_so_far': 'forall(lambda q: not sim_raises(self.children[q], id_manager), 0, _k)',
+                                         'stored': 'same(self.id_manager, id_manager)', 'only_this_manager': _ONLY,
                                          'lists_unchanged': 'c12_old_objects_unchanged()'}}})
+
+# catalogs (m5, round 3): the propagation goes to the selected member, and is refused iff that member refuses it
+from contracts.c12_audit import SEL
+contract(B + 'multiple_expressions.MultipleExpression.set_id_manager', 'C12', exact_self=False, types=IDT, modifies=_MOD,
+         raises={'BiogemeError': f'sim_raises({SEL}, id_manager)'},
+         ensures={'stored': 'same(self.id_manager, id_manager)', 'only_this_manager': _ONLY},
+         replay=REPLAY_SIM.replace("hosts = {", "from biogeme.catalog import Catalog\nhosts = {'catalog': lambda a, b: Catalog.from_dict('c', {'one': a * b, 'two': Numeric(0)}),\n         "
+                                   "'catalog under exp': lambda a, b: exp(Catalog.from_dict('c', {'one': a - b, 'two': Numeric(0)})), "))
 
 # ---------------------------------------------------------------------------------------------
 # IdManager.__init__: variables without a database
@@ -112,13 +125,18 @@ contract(IDM + 'prepare', 'C12', verify=False,
          label='IdManager.prepare(assumed)',
          note='numbering of the names (its own refusals, e.g. one name for two kinds of element, are covered by the bounded harness)')
 _VARS = "names_of_type(self.expressions[q], TypeOfElementaryExpression.VARIABLE)"
+_NEEDS = "exists(lambda q: expressions[q].embed_expression('MonteCarlo') or expressions[q].embed_expression('bioDraws'), 0, LIM)"
+field_type('IdManager', 'requires_draws', 'bool')
 contract(IDM + '__init__', 'C12',
          types={'expressions': 'list[Expression]', 'database': 'Database | None', 'number_of_draws': 'int'},
          check_frame=False,
          raises={'BiogemeError': f"(database is None and exists(lambda q: c12_nonempty(names_of_type(expressions[q], TypeOfElementaryExpression.VARIABLE)), 0, len(expressions)))"
                                  " or numbering_fails(expressions, database)"},
-         ensures={'stored': 'same(self.database, database) and seq_eq(self.expressions, expressions)'},
+         ensures={'stored': 'same(self.database, database) and seq_eq(self.expressions, expressions)',
+                  # (m5, round 3) draws are asked for IFF some formula holds a MonteCarlo operator or a draw, wherever it sits
+                  'draws_required_iff_some_formula_has_draws': 'self.requires_draws == ' + _NEEDS.replace('LIM', 'len(expressions)')},
          invariants={1: {'clauses': {
+             'draws_required_so_far': 'self.requires_draws == ' + _NEEDS.replace('LIM', '_k').replace('expressions[q]', 'self.expressions[q]'),
              'no_variable_so_far': f"implies(database is None, forall(lambda q: not c12_nonempty({_VARS}), 0, _k))",
              'stored': 'same(self.database, database) and seq_eq(self.expressions, old(expressions)) and self.expressions is not expressions',
              'argument_unchanged': 'c12_old_objects_unchanged()'}}},
@@ -215,8 +233,11 @@ contract(BASE + 'prepare', 'C12', verify=False, types={'database': 'Database | N
                    '*.theDraws', '*.typesOfDraws', '*.number_of_draws'],
          raises={'BiogemeError': 'prepare_refuses(self, database, number_of_draws)'}, ensures={'has_ids': 'self.id_manager is not None'},
          label='Expression.prepare(assumed)', note='builds the identifiers (IdManager.__init__ and the propagation are under contract separately)')
+_OUT_KINDS = ('isinstance(result, BiogemeFunctionOutputSmartOutputProxy) or '
+              'isinstance(result, BiogemeDisaggregateFunctionOutputSmartOutputProxy)')
 contract('biogeme.expressions.calculator.calculate_function_and_derivatives', 'C12', verify=False, modifies=[],
-         raises={'BiogemeError': 'engine_refuses(the_expression, database)'}, ensures={'t': 'True'}, returns='Any',
+         raises={'BiogemeError': 'engine_refuses(the_expression, database)'}, returns='Any',
+         ensures={'one_of_the_two_output_kinds': _OUT_KINDS},      # (m5) backed by C12:static:calculator-returns-output-proxies
          label='calculate_function_and_derivatives(assumed)', note='ENGINE: the compiled evaluation (C01/C02); may refuse with BiogemeError')
 for _cls in ('NamedBiogemeFunctionOutput', 'NamedBiogemeDisaggregateFunctionOutput'):
     contract(f'biogeme.function_output.{_cls}.__init__', 'C12', verify=False, modifies=[], ensures={'t': 'True'},
@@ -226,11 +247,18 @@ _FAULT = ("aud_nerr(self, database) > 0 or c12_nonempty(draws_out(self)) or c12_
           "or (database is not None and database.is_panel() and self.embed_expression('PanelLikelihoodTrajectory') and c12_nonempty(vars_out(self))) "
           "or ((hessian or bhhh) and not gradient) "
           "or (database is None and c12_nonempty(names_of_type(self, TypeOfElementaryExpression.VARIABLE)))")
+_OTHER = ("(prepare_ids and prepare_refuses(self, database, number_of_draws)) or (not prepare_ids and self.id_manager is None) "
+          "or aud_raises(self, database) or engine_refuses(self, database) "
+          "or (prepare_ids and sim_raises(self, self.id_manager))")
 contract(BASE + 'get_value_and_derivatives', 'C12',
          types={'betas': 'dict[str, float] | None', 'database': 'Database | None', 'number_of_draws': 'int', 'gradient': 'bool',
                 'hessian': 'bool', 'bhhh': 'bool', 'aggregation': 'bool', 'prepare_ids': 'bool', 'named_results': 'bool'},
-         returns='Any', check_frame=False, check_safe=False, may_raise=['BiogemeError'],
-         ensures={'a_value_only_without_fault': f'not ({_FAULT})'},
+         returns='Any', check_frame=False, check_safe=False,
+         # (m5, round 3) BOTH directions: refused IFF one of the faults of the property, or one of the assumed callees
+         # (numbering of the names, propagation of the identifiers, compiled engine) refuses.  "No false rejection":
+         # without a fault and without a refusal of those callees a value is returned.
+         raises={'BiogemeError': f'({_FAULT}) or ({_OTHER})'},
+         ensures={'a_value_only_without_fault': f'not ({_FAULT})', 'a_value_is_returned': 'result is not None'},
          replay='''
 import warnings; warnings.simplefilter('ignore')
 import subprocess, sys, json
@@ -275,10 +303,17 @@ detail = f'{got}'
 contract(BASE + 'get_status_id_manager', 'C12', verify=False, pure=True, returns='tuple[list[str], list[str]]',
          ensures={'t': 'True'}, label='Expression.get_status_id_manager(abstract)',
          note='names of the elementary expressions with / without identifiers (deterministic, no side effect)')
+_ST = 'self.get_status_id_manager()'
 contract(BASE + 'create_function', 'C12',
          types={'database': 'Database | None', 'number_of_draws': 'int', 'gradient': 'bool', 'hessian': 'bool', 'bhhh': 'bool'},
          returns='Any', check_frame=False, may_raise=['BiogemeError'],
-         ensures={'a_function_only_with_consistent_derivatives': 'not ((hessian or bhhh) and not gradient)'},
+         ensures={'a_function_only_with_consistent_derivatives': 'not ((hessian or bhhh) and not gradient)',
+                  # (m5, round 3) identifiers defined for some elements only are refused; otherwise the formula has identifiers on return
+                  # (status on entry: the two collections get_status_id_manager returns before anything is built)
+                  'no_partial_identifiers': f'not (old(len({_ST}[1])) > 0 and old(len({_ST}[0])) > 0)',
+                  'identifiers_built_when_missing': f'implies(old(len({_ST}[1])) > 0, self.id_manager is not None)',
+                  'identifiers_kept_when_complete': f'implies(old(len({_ST}[1])) == 0, same(self.id_manager, old(self.id_manager)))',
+                  'a_function_is_returned': 'result is not None'},
          replay='''
 import warnings; warnings.simplefilter('ignore')
 import pandas as pd
